@@ -187,7 +187,7 @@ def families(tier):
     if not thorough:
         pre += ["x4 == %d" % NOP, "a4 == 0", "size == 1 or size >= 6", "t >= 4", "a2 <= 2", "a3 <= 1",
                 "x3 == 0 or x3 == 2 or x3 == 3 or x3 == 7 or x3 == 10 or x3 == %d" % NOP, "a1 <= 2"]
-        parts = parts_product(x1=range(7), x2=range(NOP))
+        parts = refine(parts_product(x1=range(7), x2=range(NOP)), ["x2 == 3", "x2 == 4"], "x3", (0, 2, 3, 7, 10, NOP))
     else:
         pre += ["x4 == %d" % NOP, "a4 == 0", "size <= 2 or size >= 6", "t >= 4"]
         parts = refine(parts_product(x1=range(7), x2=range(NOP)), ["x2 == %d" % k for k in range(7)], "x3", range(NOP + 1))
